@@ -46,7 +46,7 @@ Qed.
 
 (* x passed through the blocks zpre down to the function scope T *)
 Lemma pass_ok_pre x zpre T prT zpost :
-  (forall g, In g zpre -> fisfunc (fst g) = false /\ ~ In x (pnames (snd g))) ->
+  (forall g, In g zpre -> fisfunc (fst g) = false /\ ~ In x (pall (snd g))) ->
   fisfunc T = true -> In x (pnames prT) ->
   pass_ok x (fid T) (zpre ++ (T, prT) :: zpost).
 Proof.
@@ -58,7 +58,7 @@ Qed.
 
 Lemma frames_ok_declare x decl zpre T prT zpost :
   frames_ok (zpre ++ (T, prT) :: zpost) ->
-  (forall g, In g zpre -> fisfunc (fst g) = false /\ ~ In x (pnames (snd g))) ->
+  (forall g, In g zpre -> fisfunc (fst g) = false /\ ~ In x (pall (snd g))) ->
   (zpre <> [] -> fisfunc T = true) ->
   In x (pnames prT) -> (ArgumentDecl < decl -> In x (plex prT)) ->
   (decl = ArgumentDecl -> ~ In (UPend x) (fund T)) ->
@@ -69,7 +69,7 @@ Proof.
   - cbn [app map frames_ok pass_frame fst snd] in *. destruct Hok as [K Krest].
     assert (HfT : fisfunc T = true) by (apply Hfunc; discriminate).
     destruct (Hpre (g, pg) (or_introl eq_refl)) as [Hg1 Hg2]. cbn in Hg1, Hg2.
-    assert (Hpre' : forall g', In g' rest -> fisfunc (fst g') = false /\ ~ In x (pnames (snd g'))) by (intros g' Hg'; apply Hpre; right; exact Hg').
+    assert (Hpre' : forall g', In g' rest -> fisfunc (fst g') = false /\ ~ In x (pall (snd g'))) by (intros g' Hg'; apply Hpre; right; exact Hg').
     split; [|apply IH; [exact Krest|exact Hpre'|intros _; exact HfT]].
     assert (Hshape : shape (rest ++ (T, prT) :: zpost) = shape (map (pass_frame x (fid T)) rest ++ (decl_frame T decl x, prT) :: zpost))
       by (symmetry; apply shape_declare).
@@ -111,7 +111,7 @@ Qed.
 
 Lemma L_declare a zpre T prT zpost decl x :
   AInv a (zpre ++ (T, prT) :: zpost) ->
-  (forall g, In g zpre -> fisfunc (fst g) = false /\ ~ In x (pnames (snd g))) ->
+  (forall g, In g zpre -> fisfunc (fst g) = false /\ ~ In x (pall (snd g))) ->
   (zpre <> [] -> fisfunc T = true) ->
   In x (pnames prT) -> (ArgumentDecl < decl -> In x (plex prT)) ->
   (decl = ArgumentDecl -> ~ In (UPend x) (fund T)) ->
@@ -164,7 +164,7 @@ Lemma walk_ok decl x :
     z = zpre ++ (T, prT) :: zpost /\
     a_walk (map fst z) decl x = Some (Some (map fst zpre, T, map fst zpost)) /\
     fisfunc T = true /\ In x (pvar prT) /\
-    (forall g, In g zpre -> fisfunc (fst g) = false /\ ~ In x (pnames (snd g))) /\
+    (forall g, In g zpre -> fisfunc (fst g) = false /\ ~ In x (pall (snd g))) /\
     fid T = func_of z.
 Proof.
   induction z as [|[fr pr] rest IH]; intros Hok Hv; [destruct Hv|].
@@ -175,7 +175,7 @@ Proof.
   - destruct Hv as [Hn Hv].
     assert (Ed : a_find_decl fr x = None).
     { destruct (a_find_decl fr x) as [[y kk]|] eqn:E; [|reflexivity].
-      destruct (a_find_decl_some _ _ _ _ E) as [-> Hin]. destruct (K_decl _ _ _ K x kk Hin) as [Hp _]. contradiction. }
+      destruct (a_find_decl_some _ _ _ _ E) as [-> Hin]. destruct (K_decl _ _ _ K x kk Hin) as [Hp _]. destruct (pall_pnames _ _ Hn Hp). }
     rewrite Ed. destruct (IH Krest Hv) as (zpre & T & prT & zpost & E1 & E2 & E3 & E4 & E5 & E6).
     exists ((fr, pr) :: zpre), T, prT, zpost. rewrite E2.
     split; [cbn; rewrite E1; reflexivity|]. split; [reflexivity|]. split; [exact E3|]. split; [exact E4|].
